@@ -28,6 +28,7 @@ RULE += (' Also: adapter sources forwarding aclose through __getattr__, future-l
 RULE += (' Also: class sources have value semantics (all equal, unhashable); async iterables that are not iterators.')
 RULE += (' Also: a source whose aclose appears only once iteration has begun; tee children closed in reverse order.')
 RULE += (' Also: tee sources failing once at their k-th use (the fetching child ends; the last child to go closes the source).')
+RULE += (' Also: iterators drawn from async iterables are owned by the tool that drew them.')
 ASSUMPTIONS = ["sources' own aclose never suspends or fails", "sync iterables have nothing to release",
                "a generator-based tool closed before its first step runs no code (language semantics): sources need "
                "not be closed then, except for handles that advertise eager closing (chain, tee, groupby)"]
@@ -130,8 +131,11 @@ def _leaks(side, spec, flavs, outer_flav):
         pairs = list(zip(srcs, fl))
     n_closable = 0
     for st, f in pairs:
-        if f not in ("async_gen", "async_class", "async_class_full", "async_class_proxy", "async_class_future"):
+        # (the iterator a tool draws from an async ITERABLE is the tool's own as well)
+        if f not in ("async_gen", "async_class", "async_class_full", "async_class_proxy", "async_class_future", "async_iterable"):
             continue
+        if f == "async_iterable" and not st.given:
+            continue  # never asked for an iterator: there is nothing anybody could own
         n_closable += 1
         if not st.released():
             leaked.append(st.sid)
